@@ -51,7 +51,7 @@ def leg_mc(chk, tier):
 def gen_jobs(tier):
     """(C, filler lo, filler hi, classes, tails)"""
     if tier == "quick":
-        j = [(32, 0, 36, 3, 1)]
+        j = [(32, 0, 36, 4, 1)]
         j += [(256, lo, hi, 2, 1) for lo, hi in ((0, 0), (63, 64), (127, 128), (254, 256))]
     else:
         j = [(32, lo, lo + 3, 8, 3) for lo in range(0, 40, 4)] + [(32, 60, 70, 8, 3)]
